@@ -1,5 +1,7 @@
 import CppUModel.Proofs.LeakDetector
 import CppUModel.Model.LeakPluginDrive
+import CppUModel.Proofs.LeakOverloads
+import CppUModel.Gen.LeakDetectorLoops
 /-!
 # C04 — leak accounting is exact for every allocation history
 
@@ -483,6 +485,227 @@ theorem final_report_exact (s : State) (inv : s.Inv) (n : Nat) :
         · intro hall m hm; simpa using hall m hm
         · intro hall m hm; simp [hall m hm]
 
+/-! ## the switchable global entry points and the current allocators (assignment lists, counter guards, wrappers and
+the stash regenerated from MemoryLeakWarningPlugin.cpp / TestMemoryAllocator.cpp) -/
+
+def exA0 : Allocator := .plain 1 "Standard New Allocator" "new" "delete"
+
+section Overloads
+open Gen.LeakDetector
+
+/-- `turnOff…`, `turnOnDefault…`, `turnOnThreadSafe…` put every one of the 11 pointers in the position named, whatever was there -/
+theorem switch_sets_every_pointer (o : Ov) :
+    (∀ e ∈ offTable, (turnOff o).vars.get e.1 = e.2) ∧ (∀ e ∈ plainTable, (turnOnPlain o).vars.get e.1 = e.2) ∧
+    (∀ e ∈ threadSafeTable, (turnOnThreadSafe o).vars.get e.1 = e.2) := by
+  refine ⟨?_, ?_, ?_⟩ <;> intro e he
+  · simp only [offTable, List.mem_cons, List.mem_nil_iff, or_false] at he
+    rcases he with rfl | rfl | rfl | rfl | rfl | rfl | rfl | rfl | rfl | rfl | rfl <;>
+      simp [turnOff, Store.assignConsts, offTable, List.foldl]
+  · simp only [plainTable, List.mem_cons, List.mem_nil_iff, or_false] at he
+    rcases he with rfl | rfl | rfl | rfl | rfl | rfl | rfl | rfl | rfl | rfl | rfl <;>
+      simp [turnOnPlain, Store.assignConsts, plainTable, List.foldl]
+  · simp only [threadSafeTable, List.mem_cons, List.mem_nil_iff, or_false] at he
+    rcases he with rfl | rfl | rfl | rfl | rfl | rfl | rfl | rfl | rfl | rfl | rfl <;>
+      simp [turnOnThreadSafe, Store.assignConsts, threadSafeTable, List.foldl]
+
+theorem areOverloaded_by_position (o : Ov) :
+    areOverloaded (turnOff o) = false ∧ areOverloaded (turnOnPlain o) = true ∧ areOverloaded (turnOnThreadSafe o) = true := by
+  refine ⟨?_, ?_, ?_⟩ <;>
+    simp [areOverloaded, turnOff, turnOnPlain, turnOnThreadSafe, Store.assignConsts, offTable, plainTable, threadSafeTable,
+      List.foldl, overloadedPtr, overloadedFns]
+
+
+
+/-- the outermost `saveAndDisableNewDeleteOverloads()` (counter 0) switches the overloads off, and the matching
+    `restoreNewDeleteOverloads()` puts every one of the 11 pointers back to what it was — whatever it was -/
+theorem save_restore_roundtrip (o : Ov) (h0 : o.counter = 0) :
+    areOverloaded (saveAndDisable o) = false ∧
+    (∀ e ∈ offTable, (saveAndDisable o).vars.get e.1 = e.2) ∧
+    (∀ p ∈ fptrNames, (restoreOverloads (saveAndDisable o)).vars.get p = o.vars.get p) ∧
+    (restoreOverloads (saveAndDisable o)).counter = 0 := by
+  have hs : saveAndDisable o =
+      turnOff { vars := o.vars.assignVars saveAssignments, counter := 1 } := by
+    simp [saveAndDisable, h0, saveCounterStep, saveReturnIfAbove, saveThenCalls, List.foldl, callByName]
+  refine ⟨?_, ?_, ?_, ?_⟩
+  · rw [hs]; exact (areOverloaded_by_position _).1
+  · rw [hs]; exact (switch_sets_every_pointer _).1
+  · intro p hp
+    rw [hs]
+    simp only [fptrNames, offTable, List.map, List.mem_cons, List.mem_nil_iff, or_false] at hp
+    rcases hp with rfl | rfl | rfl | rfl | rfl | rfl | rfl | rfl | rfl | rfl | rfl <;>
+      simp [restoreOverloads, turnOff, restoreCounterStep, restoreReturnIfAbove, restoreThenCalls, Store.assignVars,
+        Store.assignConsts, saveAssignments, restoreAssignments, offTable, List.foldl]
+  · rw [hs]
+    simp [restoreOverloads, turnOff, restoreCounterStep, restoreReturnIfAbove, restoreThenCalls, List.foldl]
+
+/-- inner calls only count: with a save already open (`save_counter ≥ 1`) another save changes nothing but the counter, and
+    a restore that is not the outermost one (`save_counter ≥ 2`) neither — so save / restore pairs nest to any depth -/
+theorem nested_save_restore_only_count (o : Ov) :
+    (1 ≤ o.counter → saveAndDisable o = { o with counter := o.counter + 1 }) ∧
+    (2 ≤ o.counter → restoreOverloads o = { o with counter := o.counter - 1 }) := by
+  constructor
+  · intro h
+    have hc : o.counter + saveCounterStep > saveReturnIfAbove := by simp [saveCounterStep, saveReturnIfAbove]; omega
+    unfold saveAndDisable
+    rw [if_pos hc]
+    rfl
+  · intro h
+    have hc : o.counter + restoreCounterStep > restoreReturnIfAbove := by simp [restoreCounterStep, restoreReturnIfAbove]; omega
+    have he : o.counter + restoreCounterStep = o.counter - 1 := by simp [restoreCounterStep]; omega
+    unfold restoreOverloads
+    rw [if_pos hc, he]
+
+def saveTimes : Nat → Ov → Ov
+  | 0, o => o
+  | k + 1, o => saveAndDisable (saveTimes k o)
+def restoreTimes : Nat → Ov → Ov
+  | 0, o => o
+  | k + 1, o => restoreOverloads (restoreTimes k o)
+
+theorem saveTimes_succ (k : Nat) (o : Ov) (h0 : o.counter = 0) :
+    saveTimes (k + 1) o = { saveAndDisable o with counter := (k : Int) + 1 } := by
+  induction k with
+  | zero =>
+    simp [saveTimes, saveAndDisable, h0, saveCounterStep, saveReturnIfAbove, saveThenCalls, List.foldl, callByName, turnOff]
+  | succ k ih =>
+    show saveAndDisable (saveTimes (k + 1) o) = _
+    rw [ih, (nested_save_restore_only_count _).1 (by simp; omega)]
+    simp
+
+theorem restoreTimes_inner (k : Nat) (o : Ov) (j : Int) (hj : 1 ≤ j) :
+    restoreTimes k { o with counter := j + k } = { o with counter := j } := by
+  induction k generalizing j with
+  | zero => simp [restoreTimes]
+  | succ k ih =>
+    show restoreOverloads (restoreTimes k _) = _
+    have : ({ o with counter := j + ((k + 1 : Nat) : Int) } : Ov) = { o with counter := (j + 1) + (k : Int) } := by
+      simp; omega
+    rw [this, ih (j + 1) (by omega), (nested_save_restore_only_count _).2 (by simp; omega)]
+    simp
+
+/-- `k+1` nested saves followed by `k+1` restores leave the 11 pointers and the counter as they were; in between the
+    overloads are off -/
+theorem save_restore_nest (k : Nat) (o : Ov) (h0 : o.counter = 0) :
+    areOverloaded (saveTimes (k + 1) o) = false ∧
+    (∀ p ∈ fptrNames, (restoreTimes (k + 1) (saveTimes (k + 1) o)).vars.get p = o.vars.get p) ∧
+    (restoreTimes (k + 1) (saveTimes (k + 1) o)).counter = 0 := by
+  have hr := save_restore_roundtrip o h0
+  rw [saveTimes_succ k o h0]
+  refine ⟨hr.1, ?_⟩
+  show (∀ p ∈ fptrNames, (restoreOverloads (restoreTimes k _)).vars.get p = _) ∧ (restoreOverloads (restoreTimes k _)).counter = 0
+  have hc : (saveAndDisable o).counter = 1 := by
+    simp [saveAndDisable, h0, saveCounterStep, saveReturnIfAbove, saveThenCalls, List.foldl, callByName, turnOff]
+  have e : ({ saveAndDisable o with counter := (k : Int) + 1 } : Ov) = { saveAndDisable o with counter := 1 + (k : Int) } := by
+    simp; omega
+  rw [e, restoreTimes_inner k (saveAndDisable o) 1 (by omega)]
+  have e2 : ({ saveAndDisable o with counter := 1 } : Ov) = saveAndDisable o := by
+    cases hso : saveAndDisable o with
+    | mk v c => rw [hso] at hc; simp at hc; simp [hc]
+  rw [e2]
+  exact ⟨hr.2.2.1, hr.2.2.2⟩
+
+
+/-- With the overloads switched off no global entry point reaches the detector: every acquiring form, every releasing
+    form and `cpputest_realloc_location` go to the platform function, so the outstanding set (the whole detector state) is
+    untouched — whatever the saved position and the counter are. -/
+theorem off_position_reaches_no_detector (o : Ov) (c : Current) (s : State) (size addr : Nat) (file : String) (line result : Nat)
+    (fill : UInt8) :
+    (∀ form ∈ acquireForms, gAcquire (turnOff o) c s form size file line result fill = .raw "malloc") ∧
+    (∀ form ∈ releaseForms, gRelease (turnOff o) c s form addr file line = .raw "free") ∧
+    gRealloc (turnOff o) c s addr size file line result fill = .raw "realloc" := by
+  refine ⟨?_, ?_, ?_⟩
+  · intro form hf
+    simp only [acquireForms, List.mem_cons, List.mem_nil_iff, or_false] at hf
+    rcases hf with rfl | rfl | rfl | rfl | rfl | rfl | rfl | rfl | rfl <;>
+      simp [gAcquire, Ov.formFunction, formFptr, formKey, overloads, turnOff, Store.assignConsts, offTable, List.foldl,
+        acquireWrappers, normalWrappers, List.find?, List.lookup]
+  · intro form hf
+    simp only [releaseForms, List.mem_cons, List.mem_nil_iff, or_false] at hf
+    rcases hf with rfl | rfl | rfl | rfl | rfl | rfl | rfl | rfl | rfl | rfl | rfl <;>
+      simp [gRelease, Ov.formFunction, formFptr, formKey, overloads, turnOff, Store.assignConsts, offTable, List.foldl,
+        releaseWrappers, normalWrappers, List.find?, List.lookup]
+  · simp [gRealloc, Ov.reallocFunction, turnOff, Store.assignConsts, offTable, List.foldl,
+      acquireWrappers, normalWrappers, List.find?, List.lookup]
+
+theorem off_position_keeps_state (o : Ov) (c : Current) (s : State) (size addr : Nat) (file : String) (line result : Nat)
+    (fill : UInt8) :
+    (∀ form ∈ acquireForms, (gAcquire (turnOff o) c s form size file line result fill).state s = s) ∧
+    (∀ form ∈ releaseForms, (gRelease (turnOff o) c s form addr file line).state s = s) ∧
+    (gRealloc (turnOff o) c s addr size file line result fill).state s = s := by
+  have h := off_position_reaches_no_detector o c s size addr file line result fill
+  refine ⟨fun f hf => by rw [h.1 f hf]; rfl, fun f hf => by rw [h.2.1 f hf]; rfl, by rw [h.2.2]; rfl⟩
+
+/-- With the plain or the thread-safe overloads switched on, `cpputest_realloc_location` is `reallocMemory` with the current
+    malloc allocator, the caller's file / line and separately allocated records (so `realloc_moves_exactly` etc. speak about it). -/
+theorem on_position_realloc (o : Ov) (c : Current) (s : State) (size addr : Nat) (file : String) (line result : Nat) (fill : UInt8) :
+    gRealloc (turnOnPlain o) c s addr size file line result fill = .tracked (realloc s c.mallocA addr size file line true result fill) ∧
+    gRealloc (turnOnThreadSafe o) c s addr size file line result fill = .tracked (realloc s c.mallocA addr size file line true result fill) := by
+  constructor <;>
+    simp [gRealloc, Ov.reallocFunction, turnOnPlain, turnOnThreadSafe, Store.assignConsts, plainTable, threadSafeTable, List.foldl,
+      acquireWrappers, List.find?, reallocBy, Current.byGetter]
+
+/-- With the overloads switched on, what an acquiring / releasing form does in the switch position is what the regenerated
+    function-pointer table of that mode says (the dispatch `overloads_register_the_right_allocator` and C06 speak about). -/
+theorem on_position_is_the_table (o : Ov) (c : Current) (s : State) (size addr : Nat) (file : String) (line result : Nat) (fill : UInt8) :
+    (∀ form ∈ acquireForms,
+      (∃ w, acquireWrapperOf false form = some w ∧
+        gAcquire (turnOnPlain o) c s form size file line result fill = .tracked (acquireBy w c s size file line result true fill)) ∧
+      (∃ w, acquireWrapperOf true form = some w ∧
+        gAcquire (turnOnThreadSafe o) c s form size file line result fill = .tracked (acquireBy w c s size file line result true fill))) ∧
+    (∀ form ∈ releaseForms,
+      (∃ w, releaseWrapperOf false form = some w ∧
+        gRelease (turnOnPlain o) c s form addr file line = .tracked (releaseBy w c s addr file line)) ∧
+      (∃ w, releaseWrapperOf true form = some w ∧
+        gRelease (turnOnThreadSafe o) c s form addr file line = .tracked (releaseBy w c s addr file line))) := by
+  constructor
+  · intro form hf
+    simp only [acquireForms, List.mem_cons, List.mem_nil_iff, or_false] at hf
+    rcases hf with rfl | rfl | rfl | rfl | rfl | rfl | rfl | rfl | rfl <;>
+      simp [gAcquire, Ov.formFunction, acquireWrapperOf, formFunction, formFptr, formKey, overloads, turnOnPlain, turnOnThreadSafe,
+        Store.assignConsts, plainTable, threadSafeTable, List.foldl, acquireWrappers, List.find?, List.lookup]
+  · intro form hf
+    simp only [releaseForms, List.mem_cons, List.mem_nil_iff, or_false] at hf
+    rcases hf with rfl | rfl | rfl | rfl | rfl | rfl | rfl | rfl | rfl | rfl | rfl <;>
+      simp [gRelease, Ov.formFunction, releaseWrapperOf, formFunction, formFptr, formKey, overloads, turnOnPlain, turnOnThreadSafe,
+        Store.assignConsts, plainTable, threadSafeTable, List.foldl, releaseWrappers, List.find?, List.lookup]
+
+/-- `GlobalMemoryAllocatorStash`: `restore()` after `save()` brings back all three current allocators, each to its own family,
+    whatever was set in between and whatever the stash held before -/
+theorem stash_restore_after_save (c c' : Current) (st : Stash) : stashRestoreRun (stashSaveRun c st) c' = c := by
+  cases c; cases c'
+  simp [stashRestoreRun, stashSaveRun, stashSave, stashRestore, List.foldl, Current.bySetter, Current.byGetter]
+
+/-- an empty stash restores nothing -/
+theorem stash_restore_empty (c : Current) : stashRestoreRun Stash.empty c = c := by
+  simp [stashRestoreRun, Stash.empty, stashRestore, List.foldl]
+
+/-- `setCurrent…AllocatorToDefault()` and `setCurrent…Allocator(NULL)` followed by the getter install the default allocator of
+    THAT family (whose `alloc_name()` is what a leak entry shows as type) and leave the other two families alone -/
+theorem defaults_go_to_their_family (c : Current) :
+    (setCurrentNull c .new = { c with newA := defaultAllocatorOf "defaultNewAllocator" }) ∧
+    (setCurrentNull c .newArray = { c with newArrayA := defaultAllocatorOf "defaultNewArrayAllocator" }) ∧
+    (setCurrentNull c .malloc = { c with mallocA := defaultAllocatorOf "defaultMallocAllocator" }) ∧
+    (defaultAllocatorOf "defaultNewAllocator").allocName = "new" ∧
+    (defaultAllocatorOf "defaultNewArrayAllocator").allocName = "new []" ∧
+    (defaultAllocatorOf "defaultMallocAllocator").allocName = "malloc" := by
+  refine ⟨?_, ?_, ?_, by decide, by decide, by decide⟩ <;>
+    simp [setCurrentNull, setToDefault, defaultSetterOfFamily, defaultSetters, List.find?, Current.bySetter]
+
+/-- the static initialisers put the program in the plain position with nothing saved open -/
+theorem initial_position : areOverloaded Ov.init = true ∧ Ov.init.counter = 0 ∧
+    (∀ e ∈ plainTable, Ov.init.vars.get e.1 = e.2) := by decide
+
+
+/-- non-vacuity: from the initial position, save twice, restore twice: back in the plain position; in between a `new` reaches
+    no detector, afterwards it is `allocMemory` with the current new allocator -/
+example : areOverloaded (restoreTimes 2 (saveTimes 2 Ov.init)) = true ∧ areOverloaded (saveTimes 2 Ov.init) = false ∧
+    (saveTimes 2 Ov.init).counter = 2 := by decide
+example : ((gAcquire (restoreTimes 2 (saveTimes 2 Ov.init)) ⟨exA0, exA0, exA0⟩ (State.init 73) "new" 4 "f.c" 7 1168 0xA5).state
+    (State.init 73)).nodes.length = 1 := by decide
+example : ((gAcquire (saveTimes 2 Ov.init) ⟨exA0, exA0, exA0⟩ (State.init 73) "new" 4 "f.c" 7 1168 0xA5).state
+    (State.init 73)).nodes.length = 0 := by decide
+end Overloads
+
 /-! ## non-vacuity: a concrete history with three blocks in one bucket, a release from the middle of the
 chain, a stage release and a report -/
 
@@ -515,5 +738,84 @@ example : totalMemoryLeaks exState .enabled = 3 := by decide
 example : (reportedLeaks exState .checking).map (·.number) = [3, 4] := by decide
 example : ((deallocStage exState).1.nodes.map (·.addr)) = [1168] := by decide
 example : ((markChecking exState).nodes.map (·.period)) = [.enabled, .enabled, .enabled] := by decide
+
+/-! ## the list / table loops as regenerated from the source (`Gen/LeakDetectorLoops.lean`) are the model's
+
+Every theorem above is stated with `Bucket.*` / `Table.*`; these equalities carry them over to the functions the translator
+regenerates from `MemoryLeakDetector.cpp` on every run (loop skeleton matched, guard translated). -/
+
+/-- the regenerated `retrieveNode` loop is the model's, for every chain and address -/
+theorem gen_retrieveNode_eq (b : Bucket) (a : Nat) : Gen.LeakLoops.retrieveNode b a = Bucket.retrieveNode b a := by
+  induction b with
+  | nil => rfl
+  | cons n rest ih => simp [Gen.LeakLoops.retrieveNode, Bucket.retrieveNode, ih]
+
+/-- the regenerated `removeNode` loop returns what the model's `retrieveNode` finds and leaves the model's `unlinkNode` chain -/
+theorem gen_removeNode_eq (b : Bucket) (a : Nat) :
+    Gen.LeakLoops.removeNode b a = (Bucket.retrieveNode b a, Bucket.unlinkNode b a) := by
+  induction b with
+  | nil => rfl
+  | cons n rest ih =>
+    by_cases h : n.addr = a <;> simp [Gen.LeakLoops.removeNode, Bucket.retrieveNode, Bucket.unlinkNode, ih, h]
+
+theorem gen_clearAllAccounting_eq (p : Period) (b : Bucket) :
+    Gen.LeakLoops.clearAllAccounting p b = Bucket.clearAllAccounting p b := by
+  induction b with
+  | nil => rfl
+  | cons n rest ih =>
+    by_cases h : Gen.LeakDetector.isInPeriod n.period p = true <;>
+      simp [Gen.LeakLoops.clearAllAccounting, Bucket.clearAllAccounting, isInPeriod, ih, h]
+
+theorem gen_getLeakFrom_eq (p : Period) (b : Bucket) :
+    Gen.LeakLoops.getLeakFrom p b = Bucket.getLeakFrom (isInPeriod p) b := by
+  induction b with
+  | nil => rfl
+  | cons n rest ih =>
+    by_cases h : Gen.LeakDetector.isInPeriod n.period p = true <;>
+      simp [Gen.LeakLoops.getLeakFrom, Bucket.getLeakFrom, isInPeriod, ih, h]
+
+theorem gen_getLeakForAllocationStageFrom_eq (st : BitVec 8) (b : Bucket) :
+    Gen.LeakLoops.getLeakForAllocationStageFrom st b = Bucket.getLeakFrom (isInStage st) b := by
+  induction b with
+  | nil => rfl
+  | cons n rest ih =>
+    simp [Gen.LeakLoops.getLeakForAllocationStageFrom, Bucket.getLeakFrom, isInStage, Gen.LeakLoops.isInAllocationStage, ih]
+
+theorem gen_getTotalLeaksFrom (p : Period) (b : Bucket) (k : Nat) :
+    Gen.LeakLoops.getTotalLeaksFrom p k b = k + Bucket.getTotalLeaks p b := by
+  induction b generalizing k with
+  | nil => simp [Gen.LeakLoops.getTotalLeaksFrom, Bucket.getTotalLeaks]
+  | cons n rest ih =>
+    by_cases h : Gen.LeakDetector.isInPeriod n.period p = true <;>
+      simp [Gen.LeakLoops.getTotalLeaksFrom, Bucket.getTotalLeaks, ih, isInPeriod, h] <;> omega
+
+theorem gen_getTotalLeaks_eq (p : Period) (b : Bucket) : Gen.LeakLoops.getTotalLeaks p b = Bucket.getTotalLeaks p b := by
+  simp [Gen.LeakLoops.getTotalLeaks, gen_getTotalLeaksFrom]
+
+/-- the bucket loops of the table run over all buckets from 0; the search for the next leak continues in the bucket after
+    the leak's own (`++i`), which is the `+ 1` of the model's `Table.getNextLeak` -/
+theorem gen_table_loop_bounds : Gen.LeakLoops.tableLoopStart = 0 ∧ Gen.LeakLoops.nextLeakBucketOffset = 1 := ⟨rfl, rfl⟩
+
+/-- so the table operations of the model are the regenerated loops run on the bucket `hash` names -/
+theorem gen_table_ops (t : Table) (a : Nat) (p : Period) :
+    t.retrieveNode a = Gen.LeakLoops.retrieveNode (t.bucket (t.hash a)) a ∧
+    t.unlinkNode a = t.setBucket (t.hash a) (Gen.LeakLoops.removeNode (t.bucket (t.hash a)) a).2 ∧
+    (t.clearAllAccounting p).buckets = t.buckets.map (Gen.LeakLoops.clearAllAccounting p) ∧
+    t.getTotalLeaks p = (t.buckets.map (Gen.LeakLoops.getTotalLeaks p)).sum := by
+  refine ⟨?_, ?_, ?_, ?_⟩
+  · rw [gen_retrieveNode_eq]; rfl
+  · rw [gen_removeNode_eq]; rfl
+  · show t.buckets.map _ = _
+    congr 1; funext b; rw [gen_clearAllAccounting_eq]
+  · show Table.totalIn p t.buckets = _
+    induction t.buckets with
+    | nil => rfl
+    | cons b bs ih => simp [Table.totalIn, ih, gen_getTotalLeaks_eq]
+
+
+/-- non-vacuity: the regenerated loops on a three-node chain -/
+example : (Gen.LeakLoops.removeNode exState.nodes 1168).2.map (·.addr) = [1168 + 146, 1169] ∧
+    (Gen.LeakLoops.removeNode exState.nodes 1168).1.map (·.number) = some 1 ∧
+    Gen.LeakLoops.getTotalLeaks .checking exState.nodes = 2 := by decide
 
 end LeakDetector
